@@ -406,15 +406,25 @@ impl Ctx {
     for (i, value) in values.iter().enumerate() {
       let log = verif_dir().join(".work").join(format!("envlog-{}-{}-{}.txt", self.property, std::process::id(), i));
       let _ = std::fs::remove_file(&log);
-      let out = std::process::Command::new(&exe)
+      let mut cmd = std::process::Command::new(&exe);
+      cmd
         .args([self.property, if self.quick() { "quick" } else { "thorough" }])
         .env("LD_PRELOAD", &lib)
         .env("PV_ENV_VALUE", value)
         .env("PV_ENV_LOG", &log)
         .env("PV_CHILD", "1")
         .env("VERIF_SEED", self.seed.to_string())
-        .env("PV_VERIF", verif_dir())
-        .output();
+        .env("PV_VERIF", verif_dir());
+      // every other child also has a standard error stream nobody reads any more (a log collector that went away): writing
+      // to it fails with EPIPE - a library that logs there must not fall over
+      let out = if i % 2 == 1 {
+        cmd.stdout(std::process::Stdio::piped()).stderr(std::process::Stdio::piped()).spawn().and_then(|mut child| {
+          drop(child.stderr.take());
+          child.wait_with_output()
+        })
+      } else {
+        cmd.output()
+      };
       if let Ok(text) = std::fs::read_to_string(&log) {
         names.extend(text.lines().map(|l| l.to_string()));
       }
@@ -433,7 +443,7 @@ impl Ctx {
           for k in 0..v["distinct_nontrivial"].as_u64().unwrap_or(0) {
             rep.nontrivial.insert(hash_of(&("env", i, k)));
           }
-          *rep.classes.entry(format!("environment: every unset variable = {:?}", value)).or_insert(0) += n;
+          *rep.classes.entry(format!("environment: every unset variable = {:?}{}", value, if i % 2 == 1 { ", stderr is a broken pipe" } else { "" })).or_insert(0) += n;
           if let Some(found) = v["found"].as_array() {
             for f in found {
               rep.found.push(Found {
@@ -1020,6 +1030,53 @@ pub fn replay(property: &str, subs: Vec<Box<dyn DynSub>>, file: &str) -> i32 {
   }
   println!("replay: no sub-check named '{sub_name}' in {property}");
   2
+}
+
+/// Runs `pv <mode> all|<index>` in helper processes - the binary of this process and, when it was built, the
+/// unoptimised one (`target/debug/pv`: no inlining, no tail calls: recursion there is as deep as it is written) - and turns
+/// what they print (`CASE i desc` before, `RESULT i returned|PANIC loc msg` after each case, `DONE` at the end) into a
+/// verdict: a caught panic or a helper that died is a violation for the announced case.
+pub fn helper_verdict(property: &str, mode: &str, index: u32, cl: &mut Classes) -> Verdict {
+  let exe = match std::env::current_exe() {
+    Ok(e) => e,
+    Err(_) => return Verdict::Discard,
+  };
+  let mut binaries = vec![("release", exe.clone())];
+  if let Some(dev) = exe.parent().and_then(|p| p.parent()).map(|p| p.join("debug").join("pv")) {
+    if dev.exists() {
+      binaries.push(("unoptimised", dev));
+    }
+  }
+  let arg = if index == u32::MAX { "all".to_string() } else { index.to_string() };
+  let mut total = 0;
+  for (profile, bin) in binaries {
+    let mut cmd = std::process::Command::new(&bin);
+    if profile == "unoptimised" {
+      cmd.env("PV_HELPER_LIGHT", "1");
+    }
+    let out = match cmd.args([mode, &arg]).output() {
+      Ok(o) => o,
+      Err(_) => continue,
+    };
+    let text = String::from_utf8_lossy(&out.stdout).to_string();
+    let cases = text.lines().filter(|l| l.starts_with("CASE ")).count();
+    total += cases;
+    cl.tag(format!("helper process ({profile} build): {} cases", if cases >= 100 { ">=100" } else { "<100" }));
+    if let Some(p) = text.lines().find(|l| l.starts_with("RESULT ") && l.contains(" PANIC ")) {
+      let idx: u32 = p.split(' ').nth(1).and_then(|x| x.parse().ok()).unwrap_or(0);
+      let desc = text.lines().find(|l| l.starts_with(&format!("CASE {idx} "))).unwrap_or("").to_string();
+      return Verdict::Violation { sig: format!("{property}:panic:{}", p.split(' ').nth(3).unwrap_or("?")), detail: format!("[{profile} build] {desc}: {p}") };
+    }
+    if !text.lines().any(|l| l == "DONE") {
+      let last = text.lines().filter(|l| l.starts_with("CASE ")).last().unwrap_or("CASE ? (none announced)").to_string();
+      return Verdict::Violation {
+        sig: format!("{property}:process-died-on-long-or-deep-input"),
+        detail: format!("[{profile} build] the helper process ended with {:?} (stack overflow / abort - nothing a caller could catch) while handling: {}", out.status, last),
+      };
+    }
+  }
+  cl.nontrivial(total > 0);
+  Verdict::Pass
 }
 
 /// helper for strategies: monotone index map (shrinks toward the first alternative)
